@@ -93,6 +93,13 @@ def long_family(tier):
     out.append('형... 흑...💕 흑... 하앗... 하앗... 항...💕')      # x -> x^3
     out.append('형.. 형... 흡... 흑...♥ 하앗... 항...♥')          # (1/3)^(2^k): exploding denominators
     out.append('형... 항. ' + '형.. 흑...♥ 하앗... 항...♥' + ' 항.')
+    # the same for every arithmetic command and 1..3 operands: results fed back into the same command by a loop
+    for kind in (1, 2, 3, 4):
+        for syl in (1, 2, 3):
+            op = P.spell(kind, syl, 3)
+            out.append('형.. 형... %s💕 %s💕' % (op, op))
+            out.append('형.. 형... 흑...♥ %s 항...♥' % op)
+            out.append('형.. 흡... 형... 흑...♥ %s 흑... 항...♥' % op)
     # counting down in the pre-executed part, values stay small, many distinct labels
     out.append(' '.join(loop_program(120).replace('💕', h) for h in P.HEARTS[:11]))
     return out
